@@ -854,6 +854,10 @@ class _EvalBuilder(_Builder):
                 merged_kw = dict(inner[3])
                 merged_kw.update(dict(s[3]))
                 s = ("call", inner[2][0], tuple(inner[2][1:]) + tuple(s[2]), tuple(sorted(merged_kw.items(), key=lambda kv: str(kv[0]))))
+            # struct.Struct(F).pack(v) / .unpack(b) / .iter_unpack(b) / .size are struct.pack(F, v) ... of the same format
+            if s[0] == "call" and s[1][0] == "a" and s[1][2] in ("pack", "unpack", "iter_unpack", "unpack_from", "pack_into") and s[1][1][0] == "call" \
+                    and dotted(s[1][1][1]) in ("struct.Struct", "Struct") and len(s[1][1][2]) == 1:
+                s = ("call", A(N("struct"), s[1][2]), (s[1][1][2][0],) + tuple(s[2]), s[3])
             s = self._fold_call(s)
             if s[0] != "call":
                 return s
